@@ -138,7 +138,7 @@ func cloneOverlay(root *packages.Package, prev map[string][]byte) (map[string][]
 	var cands []*types.Func
 	for f, ss := range sites {
 		fd := decls[f]
-		if fd == nil || len(ss) < 2 || len(ss) > maxCloneSites || valueUse[f] || recursive[f] || ast.IsExported(f.Name()) || f.Name() == "init" {
+		if fd == nil || len(ss) < 2 || len(ss) > maxCloneSites || valueUse[f] || recursive[f] || ast.IsExported(f.Name()) || (f.Name() == "init" && f.Type().(*types.Signature).Recv() == nil) {
 			continue
 		}
 		if knownFuncs[methodKey(f)] || strings.Contains(f.Name(), "__") {
@@ -174,6 +174,10 @@ func cloneOverlay(root *packages.Package, prev map[string][]byte) (map[string][]
 	}
 	edits := map[string][]cloneEdit{}
 	appends := map[string][]string{}
+	declared := map[string]bool{}
+	for _, fd := range decls {
+		declared[fd.Name.Name] = true
+	}
 	var names []string
 	for _, f := range cands {
 		fd := decls[f]
@@ -187,11 +191,17 @@ func cloneOverlay(root *packages.Package, prev map[string][]byte) (map[string][]
 		body := string(b[start:end])
 		ss := sites[f]
 		sort.Slice(ss, func(i, j int) bool { return ss[i].Pos() < ss[j].Pos() })
+		next := 2
 		for k, id := range ss {
 			if k == 0 {
 				continue // the first call site keeps the original
 			}
-			suffix := fmt.Sprintf("__%d", k+1)
+			// clones of an earlier round (made for a caller that has been cloned since) keep their names
+			for declared[fd.Name.Name+fmt.Sprintf("__%d", next)] {
+				next++
+			}
+			suffix := fmt.Sprintf("__%d", next)
+			next++
 			ps := fset.Position(id.Pos())
 			if read(ps.Filename) == nil {
 				continue
